@@ -15,7 +15,7 @@ def expected(kind):
 
 
 def verify_contract(src, K, shape, chips='int', cuts=None, timeout_ms=10000, configure=None, unwind=16,
-                    keep_smt=0, only=None, with_state=True, arg_makers=None, tag=None, setup=None):
+                    keep_smt=0, only=None, with_state=True, arg_makers=None, tag=None, setup=None, cuts_factory=None):
     """returns dict(function, shape, chips, build_s, results=[...], error=None|str)"""
     t0 = time.time()
     out = {'function': K.target, 'contract': f'{K.__module__}.{K.__qualname__}', 'shape': shape.as_dict(),
@@ -25,6 +25,8 @@ def verify_contract(src, K, shape, chips='int', cuts=None, timeout_ms=10000, con
                         with_state=with_state, arg_makers=arg_makers, setup=setup)
         if tag:
             vc.shape.tag = tag
+        if cuts_factory is not None:
+            vc.I.cuts.update(cuts_factory(vc))
         obs = vc.build()
     except PyvcUnsupported as e:
         out['error'] = f'unsupported: {e}'
